@@ -10,9 +10,9 @@ import (
 	"os"
 	"strconv"
 
+	apistatus "github.com/nspcc-dev/neofs-sdk-go/client/status"
 	"github.com/nspcc-dev/neofs-sdk-go/container/acl"
 	"github.com/nspcc-dev/neofs-sdk-go/eacl"
-	apistatus "github.com/nspcc-dev/neofs-sdk-go/client/status"
 	protostatus "github.com/nspcc-dev/neofs-sdk-go/proto/status"
 )
 
@@ -26,8 +26,8 @@ func (r *rng) next() uint64 {
 	z = (z ^ (z >> 27)) * 0x94d049bb133111eb
 	return z ^ (z >> 31)
 }
-func (r *rng) n(k int) int      { return int(r.next() % uint64(k)) }
-func (r *rng) p(pct int) bool   { return r.n(100) < pct }
+func (r *rng) n(k int) int         { return int(r.next() % uint64(k)) }
+func (r *rng) p(pct int) bool      { return r.n(100) < pct }
 func pick[T any](r *rng, xs []T) T { return xs[r.n(len(xs))] }
 
 func seed() uint64 {
